@@ -252,6 +252,20 @@ func runC09(c *Ctx) {
 	ext("extother", "fsync@openssh.com", (&rb{}).str("1").b, "", "", false)
 	ext("extother", "copy-data@example.com", (&rb{}).str(f).str(newp).b, "", "", false)
 	ext("extother", "", nil, "", "", false)
+	// names that are NOT the modifying extensions but spell almost like them (letter case, padding, a missing or doubled
+	// character): they name no extension this server has, so whatever the reply says the tree stays as it is - and with the
+	// payload of the real extension a server that matched names loosely would carry the operation out
+	for _, base := range []string{"hardlink@openssh.com", "posix-rename@openssh.com"} {
+		at := strings.IndexByte(base, '@')
+		for _, name := range []string{strings.ToUpper(base), strings.ToUpper(base[:1]) + base[1:], base[:at] + "@OpenSSH.com", base[:at] + "@openssh.COM",
+			strings.ToUpper(base[:at]) + base[at:], base + " ", " " + base, base + "\x00", base[:len(base)-1], base + "m", strings.Replace(base, "-", "_", 1)} {
+			if name == base {
+				continue
+			}
+			ext("extother", name, (&rb{}).str(f).str(newp).b, "", "", false)
+			c.Stat("near_miss_extension_names")
+		}
+	}
 	if c.Thorough() {
 		// random sequences of the above kinds
 		for i := 0; i < 3000; i++ {
